@@ -297,7 +297,13 @@ def r16_5(run):
     run.ob('R16.5', cr, cr.node, 'lookup by identity is stored unconditionally', ok, slot='id-always', message='identity key not stored on every path')
 
 
+def r16_6(run):
+    k = dropped_deferreds(run, 'R16.6', [TU(run, '_bootstrap')], 'the state bootstrap')
+    run.floor('R16.6', 'suspension points in TorState._bootstrap', k, 4)
+
+
 RULES = [
+    ('R16.6', 'no dropped Deferred in TorState._bootstrap (ns/all is loaded before the state is declared ready)', r16_6),
     ('R16.1', 'writer/resetter set agreement: every index _create_router fills is rebound/cleared before the document is fed; parser flushed', r16_1),
     ('R16.2', 'reuse hygiene: every Router attribute written conditionally or cumulatively is reset unconditionally (objects are re-used across documents)', r16_2),
     ('R16.3', 'FSM table x line classes against dir-spec 3.4.1 order r a* s [w] [p] (first-match, matcher ASTs interpreted on class representatives)', r16_3),
